@@ -18,7 +18,12 @@
    Conversions are the From / TryFrom / new / commit / serialisation round trips / Clone / pub-field
    moves the code offers; a chain is a sequence of conversions starting from the raw values.
 
-   C32:  in every object reachable by a chain, no visible path carries a sensitive label.           *)
+   C32:  in every object reachable by a chain, no visible path carries a sensitive label.
+
+   Visible(type) depends on the TYPE only - never on a value such as the dummy flag: the property quantifies over
+   all private witnesses, padding statements included.  The replay therefore runs every chain on ordinary statements
+   and on statements carrying the dummy sentinel (is_not_dummy = FALSE); a Debug impl that prints a field only for
+   one flag value shows up as a visible path the model does not have.                                  *)
 EXTENDS Naturals, Sequences, FiniteSets, TLC
 
 CONSTANTS MaxLen          \* bound on the chain length
